@@ -8,6 +8,7 @@ package html
 //@ pred hInv(l) := l != nil && l.r != nil && inputInv(l.r) && tmplOK(l)
 //@ pred hScan(l) := hInv(l) && l.r.pos >= old(l.r.pos) && l.r.start >= old(l.r.start)
 //@ pred isHTMLWS(c) := c == ' ' || c == '\t' || c == '\n' || c == '\r' || c == '\f'
+//@ pred isUpperC(c) := 'A' <= c && c <= 'Z'
 //@ pred isAlpha(c) := ('a' <= c && c <= 'z') || ('A' <= c && c <= 'Z')
 //@ pred hOff(l, tok) := ptr(tok) - ptr(l.r.buf)
 // lowerEdit: the only change to the input buffer is ASCII upper case -> lower case.
@@ -40,6 +41,7 @@ package html
 
 //@ func Lexer.shiftBogusComment
 //@   preserves[S] hScan(l)
+//@   ensures[F,C09] @intag: l.inTag == old(l.inTag) && l.hasTmpl == old(l.hasTmpl)
 //@   ensures[T]  sameMem(result, l.r.buf[old(l.r.start):l.r.pos]) && cap(result) == len(result)
 //@   ensures[T]  l.text == old(l.text) || within(l.text, result)
 //@   ensures[T,C02] @frame: sameBytesExcept(0, 0)
@@ -52,6 +54,7 @@ package html
 
 //@ func Lexer.shiftEndTag
 //@   preserves[S] hScan(l)
+//@   ensures[F,C09] @lower: forall(k, 0, len(result), !isUpperC(result[k])) && l.inTag == old(l.inTag)
 //@   ensures[T]  sameMem(result, l.r.buf[old(l.r.start):l.r.pos]) && cap(result) == len(result)
 //@   ensures[T]  l.text == old(l.text) || within(l.text, result)
 //@   ensures[T,C02] @frame: lowerEditIn(l, old(l.r.start), l.r.pos)
@@ -65,6 +68,10 @@ package html
 
 //@ func Lexer.shiftAttribute
 //@   preserves[S] hScan(l)
+//@   ensures[F,C09] @lower: len(l.tmplBegin) == 0 ==> forall(k, 0, len(l.text), !isUpperC(l.text[k]))
+//@   ensures[F,C09] @tmpl: l.hasTmpl && !old(l.hasTmpl) ==> len(l.tmplBegin) > 0
+//@   ensures[F,C09] @intag: l.inTag == old(l.inTag)
+//@   loop * candidate[F] l.hasTmpl && !old(l.hasTmpl) ==> len(l.tmplBegin) > 0
 //@   ensures[T]  sameMem(result, l.r.buf[old(l.r.start):l.r.pos]) && cap(result) == len(result)
 //@   ensures[T]  l.text == old(l.text) || within(l.text, result)
 //@   ensures[T,C02] @frame: lowerEditIn(l, hOff(l, l.text), hOff(l, l.text) + len(l.text))
@@ -87,6 +94,7 @@ package html
 
 //@ func Lexer.shiftXML
 //@   preserves[S] hScan(l)
+//@   ensures[F,C09] @intag: l.inTag == old(l.inTag) && l.hasTmpl == old(l.hasTmpl)
 //@   ensures[T]  sameMem(result, l.r.buf[old(l.r.start):l.r.pos]) && cap(result) == len(result)
 //@   ensures[T]  l.text == old(l.text) || within(l.text, result)
 //@   ensures[T,C02] @frame: sameBytesExcept(0, 0)
@@ -99,6 +107,10 @@ package html
 
 //@ func Lexer.shiftStartTag
 //@   preserves[S] hScan(l)
+//@   requires[F] l.inTag
+//@   ensures[F,C09] @lower: result0 == StartTagToken ==> forall(k, 0, len(l.text), !isUpperC(l.text[k]))
+//@   ensures[F,C09] @intag: (result0 == StartTagToken ==> l.inTag) && (result0 == SVGToken || result0 == MathToken || result0 == XMLToken ==> !l.inTag)
+//@   ensures[F,C09] @raw: l.rawTag != old(l.rawTag) ==> result0 == StartTagToken
 //@   ensures[T]  result0 != ErrorToken ==> sameMem(result1, l.r.buf[old(l.r.start):l.r.pos]) && cap(result1) == len(result1)
 //@   ensures[T]  l.text == old(l.text) || result0 == ErrorToken || within(l.text, result1)
 //@   ensures[T,C02] @frame: lowerEditIn(l, old(l.r.start)+1, l.r.pos)
@@ -113,6 +125,7 @@ package html
 
 //@ func Lexer.readMarkup
 //@   preserves[S] hScan(l)
+//@   ensures[F,C09] @intag: l.inTag == old(l.inTag) && l.hasTmpl == old(l.hasTmpl)
 //@   ensures[T]  result0 != ErrorToken ==> sameMem(result1, l.r.buf[old(l.r.start):l.r.pos]) && cap(result1) == len(result1)
 //@   ensures[T]  l.text == old(l.text) || result0 == ErrorToken || within(l.text, result1)
 //@   ensures[T,C02] @frame: sameBytesExcept(0, 0)
@@ -126,6 +139,10 @@ package html
 
 //@ func Lexer.shiftRawText
 //@   preserves[S] hScan(l)
+//@   ensures[F,C09] @intag: l.inTag == old(l.inTag)
+//@   ensures[F,C09] @tmpl: l.hasTmpl && !old(l.hasTmpl) ==> len(l.tmplBegin) > 0
+//@   loop * candidate[F] l.hasTmpl && !old(l.hasTmpl) ==> len(l.tmplBegin) > 0
+//@   loop * candidate[F] l.inTag == old(l.inTag)
 //@   ensures[T]  sameMem(result, l.r.buf[old(l.r.start):l.r.pos]) && cap(result) == len(result)
 //@   ensures[T]  l.text == old(l.text) || within(l.text, result)
 //@   ensures[T,C02] @frame: sameBytesExcept(0, 0)
@@ -149,6 +166,16 @@ package html
 //@   loop * candidate l.r.start == old(l.r.start)
 //@   loop * candidate l.inTag == old(l.inTag)
 //@   loop * decreases len(l.r.buf) - l.r.pos
+//@   ensures[F,C09] @attr-in-tag: result0 == AttributeToken ==> old(l.inTag) && l.inTag
+//@   ensures[F,C09] @open: result0 == StartTagToken ==> !old(l.inTag) && l.inTag
+//@   ensures[F,C09] @close: result0 == StartTagCloseToken || result0 == StartTagVoidToken ==> old(l.inTag) && !l.inTag
+//@   ensures[F,C09] @content: result0 == TextToken || result0 == CommentToken || result0 == DoctypeToken || result0 == EndTagToken || result0 == SVGToken || result0 == MathToken || result0 == XMLToken || result0 == TemplateToken ==> !old(l.inTag) && !l.inTag
+//@   ensures[F,C09] @raw-only-after-start: l.rawTag != 0 ==> result0 == StartTagToken || (result0 == AttributeToken || result0 == StartTagCloseToken || result0 == StartTagVoidToken || result0 == ErrorToken) && l.rawTag == old(l.rawTag)
+//@   ensures[F,C09] @lower-tag: result0 == StartTagToken || result0 == EndTagToken ==> forall(k, 0, len(l.text), !isUpperC(l.text[k]))
+//@   ensures[F,C09] @lower-attr: result0 == AttributeToken && len(l.tmplBegin) == 0 ==> forall(k, 0, len(l.text), !isUpperC(l.text[k]))
+//@   ensures[F,C09] @has-template: l.hasTmpl ==> len(l.tmplBegin) > 0
+//@   loop * candidate[F] !l.hasTmpl
+//@   loop * candidate[F] l.rawTag == 0
 //@   requires[T] l.r.start == l.r.pos
 //@   ensures[T,C02] @slice: result0 != ErrorToken ==> len(result1) > 0 && cap(result1) == len(result1) &&
 //@        hOff(l, result1) >= old(l.r.pos) && hOff(l, result1) + len(result1) == l.r.pos
